@@ -629,7 +629,7 @@ func runRoots(t *testing.T, rep *vh.Report, tl *tally, w *c12.TWorld, m mat, c C
 			why := st.Result.Why
 			tl.add("roots/error/" + why)
 			rep.Eval("")
-			if len(roots) > 0 {
+			if len(roots) > 0 && cerr != nil {
 				rep.Violate("temporal:roots:"+why+":error-with-partial-result", fmt.Sprintf("%s: %d root(s) returned together with error %v", desc, len(roots), cerr), ctxt)
 			}
 			if cerr == nil {
